@@ -1,7 +1,11 @@
 (* C04 - property theorems only.  Each is closed by [exact lemma]; Print Assumptions beneath.
    Model: coq/Model/C04.v (strings = lists of character codes, Python exceptions = Raise).
    enc_table/enc_lo/enc_hi/enc_off, dec_table/dec_off, header_limit, the separators, fqsafe_ranges,
-   tag_table, name_keys, mol_tags and py_space are REGENERATED from the tree under check (Gen/GenCodec.v).
+   tag_table, name_keys, mol_tags and py_space are REGENERATED from the tree under check (Gen/GenCodec.v), and so are
+   the CONTROL-FLOW TABLES the model interprets (Model/C04x.v): illumina_forms (per header form: deleted substring,
+   separator set, number of pieces, which piece goes to which tag), index tags, scmo / 3-DEC parsers, decoder flags
+   (strip, maxsplit, fqSafe on store), sample-name chain, ah/MI/QM/BK tags, read-group recipe, guards of digest.
+   The second half of this file (C04_*_tables) holds for EVERY table satisfying the stated well-formedness predicate.
    Vocabulary (defined in Proofs/C04*.v):
      saturate c      = min (max 33 c) 84
      dnw k           = the doNotWrite flag of tag k;   wr t = the entries of store t that asFastq writes
@@ -13,7 +17,7 @@
      derived_key k   = k is SM, MI or ah *)
 From Coq Require Import ZArith List Bool String.
 Import ListNotations.
-From SCMO Require Import Gen.GenCodec Model.C04 Proofs.C04 Proofs.C04_b Proofs.C04_c Proofs.C04_d.
+From SCMO Require Import Gen.GenCodec Model.C04 Proofs.C04 Proofs.C04_b Proofs.C04_c Proofs.C04_d Proofs.C04_e Proofs.C04_f Proofs.C04_g.
 Open Scope Z_scope.
 
 (* -------- quality codec: total for EVERY character code (so in particular 33..126), saturating *)
@@ -170,3 +174,295 @@ Print Assumptions C04_example.
 Example C04_plus_is_filtered : fqSafe (s2z "ACGT+TTGA"%string) = s2z "ACGTTTGA"%string /\ safe (s2z "ACGT+TTGA"%string) = false.
 Proof. vm_compute. split; reflexivity. Qed.
 Print Assumptions C04_plus_is_filtered.
+
+(* =====================================================================================================================
+   TABLES.  The model is an interpreter of tables regenerated from the source; the theorems below are for EVERY table
+   that satisfies the well-formedness predicates of Model/C04x.v, and the regenerated tables satisfy them (computed).
+   wf_codec C : both sides use the same two separators, which differ, lie outside the value alphabet (the class fqSafe
+                keeps) and are not blanks; no blank is in the value alphabet; every tag name is two characters of the
+                value alphabet; the key/value split is the plain one or split(sep, 1)
+   wf_form    : no tag twice in the assignment table of the form; the k-th key of the tagger's name format is assigned
+                from piece k (the decode table inverts the encode table); there are at least that many pieces; the
+                separators of the form lie outside the value alphabet; no name key is an index tag
+   ===================================================================================================================== *)
+Theorem C04_generated_tables_wf : wf_tables = true.
+Proof. exact gen_tables_wf. Qed.
+Print Assumptions C04_generated_tables_wf.
+
+(* -------- header round trip for every well-formed codec table (any fallback parser pi) *)
+Theorem C04_roundtrip_tables : forall C, wf_codec C = true -> forall pi t, wf_store_g C t = true ->
+  let w := wr_g C t in
+  written_g C t = Ok w /\
+  (w <> [] -> len (header_of_g C w) <= k_limit C ->
+   encode_g C t = Ok (header_of_g C w) /\ decode_g C pi (header_of_g C w) = Ok (dec_view_g C w)).
+Proof. exact roundtrip_g. Qed.
+Print Assumptions C04_roundtrip_tables.
+
+Theorem C04_roundtrip_field_tables : forall C t k v, wf_store_g C t = true -> In (k, v) t -> dnw_g C k = false ->
+  get k (dec_view_g C (wr_g C t)) = Some (dec_val_g C v).
+Proof. exact roundtrip_get_g. Qed.
+Print Assumptions C04_roundtrip_field_tables.
+
+Theorem C04_roundtrip_safe_tables : forall C w, Forall (fun kv => safe_g C (snd kv) = true) w ->
+  dec_view_g C w = map (fun kv => (fst kv, TS (snd kv))) w.
+Proof. exact dec_view_g_safe. Qed.
+Print Assumptions C04_roundtrip_safe_tables.
+
+(* refusal needs no hypothesis on the tables: refused iff longer than the limit, never truncated *)
+Theorem C04_refuse_long_tables : forall C t w, written_g C t = Ok w ->
+  (encode_g C t = Raise ETooLong <-> k_limit C < len (header_of_g C w)) /\
+  (forall h, encode_g C t = Ok h -> h = header_of_g C w /\ len h <= k_limit C).
+Proof. exact refuse_long_g. Qed.
+Print Assumptions C04_refuse_long_tables.
+
+(* a different well-formed codec (separators '|' '=', limit 40, no strip, split(sep, 1), no fqSafe on store): the
+   theorem is not about one table *)
+Definition ex_codec : codec := {|
+  k_isep := 124; k_kvsep := 61; k_disep := 124; k_dkvsep := 61; k_limit := 40;
+  k_tags := [(s2z "BC", (false, false)); (s2z "RP", (false, true)); (s2z "RX", (false, false))]%string;
+  k_keep := [(43, 43); (48, 57); (65, 90)]; k_space := [32; 9]; k_strip := false; k_maxsplit := 1; k_safe := false |}.
+Example C04_tables_example :
+  wf_codec ex_codec = true /\
+  let t := [(s2z "BC", s2z "ACGT+TT"); (s2z "RP", s2z "1"); (s2z "RX", s2z "a.b")]%string in
+  wf_store_g ex_codec t = true /\ encode_g ex_codec t = Ok (s2z "BC=ACGT+TT|RX=a.b"%string) /\
+  decode_g ex_codec (fun _ d => (d, Some EValue)) (s2z "BC=ACGT+TT|RX=a.b"%string) =
+    Ok [(s2z "BC", TS (s2z "ACGT+TT")); (s2z "RX", TS (s2z "a.b"))]%string.
+Proof. vm_compute. repeat split. Qed.
+Print Assumptions C04_tables_example.
+
+(* -------- header forms as tables *)
+(* a form accepts exactly the headers with n-1 separator characters (after its deletion): fewer or more fields -> not this form *)
+Theorem C04_form_accepts_iff_tables : forall F h,
+  (exists p, form_pieces F h = Some p) <-> 1 + count_in (f_seps F) (remove_sub (f_del F) h) = f_n F.
+Proof. exact form_pieces_iff. Qed.
+Print Assumptions C04_form_accepts_iff_tables.
+
+(* separator-free pieces glued by separators of the form are given back unchanged *)
+Theorem C04_form_pieces_tables : forall F h ps ss, remove_sub (f_del F) h = glue ps ss -> ps <> [] -> S (List.length ss) = List.length ps ->
+  Forall (fun p => forall c, In c p -> in_chars (f_seps F) c = false) ps -> Forall (fun x => in_chars (f_seps F) x = true) ss ->
+  len ps = f_n F -> form_pieces F h = Some ps.
+Proof. exact form_pieces_glue. Qed.
+Print Assumptions C04_form_pieces_tables.
+
+(* which piece goes to which tag: every entry of the assignment table of the accepting form, whatever the index part does *)
+Theorem C04_form_assign_tables : forall V forms raw found (inj : tval -> V) h ix d F ps k s,
+  first_form forms h = Some (F, ps) -> nodup_strs (map fst (f_assign F)) = true -> In (k, s) (f_assign F) ->
+  k <> raw -> ~ In k (map fst found) ->
+  get k (fst (parse_illumina_g forms raw found inj h ix d)) = Some (inj (eval_src ps s)).
+Proof. intros V. exact (@parse_assign V). Qed.
+Print Assumptions C04_form_assign_tables.
+
+(* the decode table inverts the encode table: the j-th key of the name format holds the j-th piece of the header *)
+Theorem C04_name_inverts_tables : forall V forms raw found (inj : tval -> V) keep nk h ix d F ps,
+  first_form forms h = Some (F, ps) -> wf_form keep nk (raw :: map fst found) F = true ->
+  forall j k, nth_error nk j = Some k ->
+  get k (fst (parse_illumina_g forms raw found inj h ix d)) = Some (inj (TS (nth j ps []))).
+Proof. exact name_keys_hold_pieces. Qed.
+Print Assumptions C04_name_inverts_tables.
+
+(* no form accepts: ValueError and the store is untouched *)
+Theorem C04_no_form_tables : forall V forms raw found (inj : tval -> V) h ix d, first_form forms h = None ->
+  parse_illumina_g forms raw found inj h ix d = (d, Some EValue).
+Proof. intros V. exact (@parse_none V). Qed.
+Print Assumptions C04_no_form_tables.
+
+Example C04_forms_example :
+  first_form forms0 (s2z "@NS500414:628:H7YVNBGXC:1:11101:15963:1046 1:N:0:GTGAAA"%string) =
+    Some (form1, map s2z ["@NS500414"; "628"; "H7YVNBGXC"; "1"; "11101"; "15963"; "1046"; "1"; "N"; "0"; "GTGAAA"]%string) /\
+  first_form forms0 (s2z "@NS500413:32:H14TKBGXX:2:11101:16448:1664 1:N:0::"%string) =
+    Some (form2, map s2z ["@NS500413"; "32"; "H14TKBGXX"; "2"; "11101"; "16448"; "1664"; "1"; "N"; "0"]%string) /\
+  first_form forms0 (s2z "@M0-1_x:7:000000000-ABCDE:1:1101:2:3"%string) =
+    Some (form3, map s2z ["@M0-1_x"; "7"; "000000000-ABCDE"; "1"; "1101"; "2"; "3"]%string) /\
+  first_form forms0 (s2z "@a:b:c:d:e"%string) = None.
+Proof. vm_compute. repeat split. Qed.
+Print Assumptions C04_forms_example.
+
+(* -------- the regenerated forms on the Illumina header shapes (coords_of: '@' + 7 non-empty header-safe fields joined by
+   ':', then nothing | ' ' RP:Fi:CN | ' ' RP:Fi:CN:: | ' ' RP:Fi:CN:index) *)
+(* every such header is accepted *)
+Theorem C04_shapes_accepted : forall h c, coords_of h = Some c -> exists F ps, first_form forms0 h = Some (F, ps).
+Proof. exact shape_accepted. Qed.
+Print Assumptions C04_shapes_accepted.
+
+(* the seven coordinates reach the seven keys of the name format, on either side, whatever the index lookup answers *)
+Theorem C04_coordinates_parse : forall f0 f1 f2 f3 f4 f5 f6 tl V (inj : tval -> V) ix d,
+  field_ok f0 = true -> field_ok f1 = true -> field_ok f2 = true -> field_ok f3 = true -> field_ok f4 = true ->
+  field_ok f5 = true -> field_ok f6 = true -> tail_wf tl ->
+  let d' := fst (parse_illumina inj (header_of_shape f0 f1 f2 f3 f4 f5 f6 tl) ix d) in
+  get k_Is d' = Some (inj (TS (64 :: f0))) /\ get k_RN d' = Some (inj (TS f1)) /\ get k_Fc d' = Some (inj (TS f2)) /\
+  get k_La d' = Some (inj (TS f3)) /\ get k_Ti d' = Some (inj (TS f4)) /\ get k_CX d' = Some (inj (TS f5)) /\
+  get k_CY d' = Some (inj (TS f6)).
+Proof. exact coordinates_parse. Qed.
+Print Assumptions C04_coordinates_parse.
+
+(* END TO END FROM THE ORIGINAL HEADER: a cell read whose coordinate tags are those _parse_illumina_header made from an
+   Illumina-shaped header gets, as query name after digest, exactly the text between '@' and the first blank *)
+Theorem C04_coordinates_restored : forall h c ix t bc ia ly bi,
+  coords_of h = Some c ->
+  let d0 := fst (parse_illumina fmt h ix []) in
+  wf_store t = true ->
+  let w := wr t in
+  (forall k, In k name_keys -> get k w = get k d0) ->
+  len (header_of w) <= header_limit ->
+  get k_BC w = Some bc -> get k_QT w = None -> get k_aA w = Some ia -> get k_LY w = Some ly -> get k_bi w = Some bi ->
+  (forall k v, In (k, v) w -> is_phred k = true -> Forall (fun x => In x dec_table) v) ->
+  exists out, chain t = Ok (c, out) /\ spec_coords h c = true /\
+    get k_SM out = Some (TS (fqSafe ly ++ 95 :: fqSafe bi)) /\
+    get k_MI out = Some (TS (fqSafe bc ++ ovalue (get k_RX w) ++ fqSafe ia)).
+Proof. exact coordinates_spec. Qed.
+Print Assumptions C04_coordinates_restored.
+
+Example C04_coordinates_example :
+  let h := s2z "@NS500414:628:H7YVNBGXC:1:11101:15963:1046 1:N:0:GTGAAT"%string in
+  coords_of h = Some (s2z "NS500414:628:H7YVNBGXC:1:11101:15963:1046"%string) /\
+  (forall k, In k name_keys -> get k (wr ex_store) = get k (fst (parse_illumina fmt h None []))) /\
+  exists out, chain ex_store = Ok (s2z "NS500414:628:H7YVNBGXC:1:11101:15963:1046"%string, out).
+Proof.
+  cbv zeta. split; [vm_compute; reflexivity|]. split.
+  - intros k HI. rewrite gen_name_keys7 in HI. cbn [In] in HI.
+    destruct HI as [E|[E|[E|[E|[E|[E|[E|[]]]]]]]]; subst k; vm_compute; reflexivity.
+  - vm_compute. eexists. reflexivity.
+Qed.
+Print Assumptions C04_coordinates_example.
+
+(* -------- headers with fewer or more fields *)
+(* accepted iff exactly 10 characters of ": ", or exactly 9 once every "::" is deleted, or exactly 6 ':' *)
+Theorem C04_header_accept_iff : forall h,
+  (exists F ps, first_form forms0 h = Some (F, ps)) <->
+  (count_in [58; 32] h = 10 \/ count_in [58; 32] (remove_sub [58; 58] h) = 9 \/ count_in [58] h = 6).
+Proof. exact accept_iff. Qed.
+Print Assumptions C04_header_accept_iff.
+
+(* every other header (not scmo, not 3-DEC) makes the TaggedRecord constructor raise ValueError: refused loudly *)
+Theorem C04_malformed_header_raises : forall h ix library reason,
+  first_form forms0 h = None -> starts_with scmo_prefix h = false -> count 95 h <> 4 ->
+  tagged_record h ix library reason = Raise EValue.
+Proof. exact malformed_header_raises. Qed.
+Print Assumptions C04_malformed_header_raises.
+
+(* the tagger: an item that is not key:value, and no Illumina header before the first ';' -> ValueError *)
+Theorem C04_malformed_name_raises : forall q d,
+  add_items (split dec_item_sep (strip q)) [] = (d, false) ->
+  (forall ih attrs, split1 dec_item_sep (strip q) = Some (ih, attrs) -> first_form forms0 ih = None) ->
+  decode q = Raise EValue.
+Proof. exact malformed_name_raises. Qed.
+Print Assumptions C04_malformed_name_raises.
+
+Example C04_malformed_example :
+  tagged_record (s2z "@a:b:c:d:e"%string) None (Some (s2z "LIB"%string)) None = Raise EValue /\
+  tagged_record (s2z "@a:b:c:d:e:f:g:h 1:N:0:ACGT"%string) None None None = Raise EValue /\
+  tagged_record (s2z "@SRR001666.1 071112_SLXA-EAS1_s_7:5:1:817:345 length=36"%string) None None None = Raise EValue /\
+  decode (s2z "Is:a:b;RN:1"%string) = Raise EValue /\ decode (s2z "Is:NS500414;RN:628;broken"%string) = Raise EValue.
+Proof. vm_compute. repeat split. Qed.
+Print Assumptions C04_malformed_example.
+
+(* ACCEPTANCE IS BY COUNTING SEPARATORS, NOT BY SHAPE (recorded observations, reproduced on the real code; the inputs are
+   outside the quantifier of the property - they are not Illumina headers):
+   - a blank in the wrong place: 11 pieces, assigned by position; the restored name is not the text before the blank;
+   - a 7-field header followed by a comment: form 3 keeps the blank inside CY; the decoder deletes it;
+   - a form-1 header that LOST one coordinate has 10 pieces and is taken for form 2: CY := read number, the index is lost *)
+Theorem C04_accepted_by_count_refuted :
+  exists h n out, coords_of h = None /\ chain_raw h None (Some (s2z "LIB"%string)) = Ok (n, out) /\
+    n = s2z "a:b:c:d:e:f:g"%string /\ h = s2z "@a b:c:d:e:f:g:h:i:j:k"%string.
+Proof. eexists. eexists. eexists. split; [|split; [|split; reflexivity]]; vm_compute; reflexivity. Qed.
+Print Assumptions C04_accepted_by_count_refuted.
+
+Theorem C04_comment_in_coordinate_refuted :
+  exists h n out, h = s2z "@M0:7:FC:1:1101:2:3 extra"%string /\ coords_of h = None /\
+    chain_raw h None (Some (s2z "LIB"%string)) = Ok (n, out) /\ n = s2z "M0:7:FC:1:1101:2:3extra"%string /\
+    get k_CY out = Some (TS (s2z "3extra"%string)).
+Proof. eexists. eexists. eexists. split; [reflexivity|]. split; [vm_compute; reflexivity|]. split; [vm_compute; reflexivity|]. split; reflexivity. Qed.
+Print Assumptions C04_comment_in_coordinate_refuted.
+
+Theorem C04_short_header_misassigned_refuted :
+  exists h d, h = s2z "@NS500414:628:H7YVNBGXC:1:11101:15963 1:N:0:ACGT"%string /\ coords_of h = None /\
+    tagged_record h None None None = Ok d /\
+    get k_CY d = Some (s2z "1"%string) /\ get k_CN d = Some (s2z "ACGT"%string) /\ get k_aa d = Some (s2z "N"%string).
+Proof. eexists. eexists. split; [reflexivity|]. split; [vm_compute; reflexivity|]. split; [vm_compute; reflexivity|]. repeat split. Qed.
+Print Assumptions C04_short_header_misassigned_refuted.
+
+(* -------- which values come back exactly: those over the header-safe alphabet and no others *)
+Theorem C04_field_exact_iff : forall t k v, wf_store t = true -> In (k, v) t -> dnw k = false ->
+  (get k (dec_view (wr t)) = Some (TS v) <-> safe v = true).
+Proof. exact field_exact_iff. Qed.
+Print Assumptions C04_field_exact_iff.
+
+Theorem C04_value_exact_iff : forall v, fqSafe v = v <-> safe v = true.
+Proof. exact fqSafe_fixed_iff. Qed.
+Print Assumptions C04_value_exact_iff.
+
+(* what is lost is exactly the characters outside the alphabet (nothing reordered, nothing added) *)
+Theorem C04_field_loss : forall v, len (fqSafe v) = len v - len (filter (fun c => negb (fq_keep c)) v).
+Proof. exact field_loss. Qed.
+Print Assumptions C04_field_loss.
+
+Theorem C04_plus_value_changes : forall v, In 43 v -> fqSafe v <> v.
+Proof. exact plus_value_changes. Qed.
+Print Assumptions C04_plus_value_changes.
+
+(* D7: a dual sequencing index "ACGT+TTGA" is an index the parser accepts (the header has an Illumina shape), the
+   coordinates come back, the index does not: aa returns without its '+' *)
+Theorem C04_dual_index_refuted :
+  exists h c n out, h = s2z "@NS500414:628:H7YVNBGXC:1:11101:15963:1046 1:N:0:ACGT+TTGA"%string /\
+    coords_of h = Some c /\ chain_raw h None (Some (s2z "LIB"%string)) = Ok (n, out) /\ n = c /\
+    get k_aa out = Some (TS (s2z "ACGTTTGA"%string)) /\ get k_aa out <> Some (TS (s2z "ACGT+TTGA"%string)).
+Proof.
+  eexists. eexists. eexists. eexists. split; [reflexivity|]. split; [vm_compute; reflexivity|]. split; [vm_compute; reflexivity|].
+  split; [reflexivity|]. split; [reflexivity|]. discriminate.
+Qed.
+Print Assumptions C04_dual_index_refuted.
+
+(* -------- the sample-name chain as a table: the first recipe whose guard tag is present names the sample *)
+Theorem C04_sample_chain_skip_tables : forall keep smtag g parts ren rest r, get g r = None ->
+  sm_apply keep smtag ((g, (parts, ren)) :: rest) r = sm_apply keep smtag rest r.
+Proof. exact sm_apply_skip. Qed.
+Print Assumptions C04_sample_chain_skip_tables.
+
+Theorem C04_sample_chain_hit_tables : forall keep smtag g parts rest r gv s, get g r = Some gv -> eval_parts parts r = Ok s ->
+  sm_apply keep smtag ((g, (parts, [])) :: rest) r = Ok (dset smtag (TS (fqSafe_g keep s)) r).
+Proof. exact sm_apply_hit. Qed.
+Print Assumptions C04_sample_chain_hit_tables.
+
+(* the legacy BI tag: sample = LY_BI, BI is renamed to bi *)
+Theorem C04_sample_legacy_BI : forall r ly bI, get k_bi r = None -> get k_BI r = Some (TS bI) -> get k_LY r = Some (TS ly) ->
+  sm_apply fqsafe_ranges sm_tag sm_recipes r =
+  Ok (ddel k_BI (dset k_bi (TS bI) (dset k_SM (TS (fqSafe (ly ++ 95 :: bI))) r))).
+Proof. exact sm_legacy. Qed.
+Print Assumptions C04_sample_legacy_BI.
+
+Example C04_sample_example :
+  sm_apply fqsafe_ranges sm_tag sm_recipes [(k_LY, TS (s2z "L-1"%string)); (k_BI, TS (s2z "7"%string))] =
+    Ok [(k_LY, TS (s2z "L-1"%string)); (k_SM, TS (s2z "L-1_7"%string)); (k_bi, TS (s2z "7"%string))] /\
+  sm_apply fqsafe_ranges sm_tag sm_recipes [(k_LY, TS (s2z "L"%string))] =
+    Ok [(k_LY, TS (s2z "L"%string)); (k_SM, TS (s2z "L_BULK"%string))] /\
+  sm_apply fqsafe_ranges sm_tag sm_recipes [(k_bi, TS (s2z "3"%string))] = Raise EKey.
+Proof. vm_compute. repeat split. Qed.
+Print Assumptions C04_sample_example.
+
+(* -------- the demultiplexer reads its own header back (a demultiplexed FASTQ demultiplexed again): fromRawFastq takes the
+   scmo branch and parse_scmo_header returns exactly the written tags in order - provided _parse_illumina_header, which is
+   tried FIRST, does not take the line for an Illumina header *)
+Theorem C04_scmo_redemultiplex : forall w ix, w <> [] -> Forall entry_ok w -> NoDup (map fst w) ->
+  first_form forms0 (fastq_prefix ++ header_of w) = None -> starts_with scmo_prefix (fastq_prefix ++ header_of w) = true ->
+  from_raw (fastq_prefix ++ header_of w) ix [] = Ok w.
+Proof. exact scmo_redemultiplex. Qed.
+Print Assumptions C04_scmo_redemultiplex.
+
+Example C04_scmo_example :
+  exists h, fastq_line ex_store = Ok h /\ first_form forms0 h = None /\ starts_with scmo_prefix h = true /\
+    from_raw h None [] = Ok (wr ex_store).
+Proof. eexists. split; [vm_compute; reflexivity|]. vm_compute. repeat split. Qed.
+Print Assumptions C04_scmo_example.
+
+(* the proviso is needed (recorded observation D36, reproduced on the real code; reachable only without a library name and
+   without an index parser): a record holding just the ten written tags of _parse_illumina_header gives a header with
+   exactly ten ':' - demultiplexed again it IS taken for an Illumina header and torn apart at the ':' *)
+Theorem C04_bare_record_redemultiplexed_refuted :
+  exists d h d', tagged_record (s2z "@NS500414:628:H7YVNBGXC:1:11101:15963:1046 1:N:0:GTGAAA"%string) None None None = Ok d /\
+    fastq_line d = Ok h /\ starts_with scmo_prefix h = true /\ first_form forms0 h <> None /\
+    tagged_record h None None None = Ok d' /\ get k_RN d' = Some (s2z "@NS500414;RN"%string) /\ d' <> d.
+Proof.
+  eexists. eexists. eexists. split; [vm_compute; reflexivity|]. split; [vm_compute; reflexivity|]. split; [vm_compute; reflexivity|].
+  split; [vm_compute; discriminate|]. split; [vm_compute; reflexivity|]. split; [reflexivity|]. discriminate.
+Qed.
+Print Assumptions C04_bare_record_redemultiplexed_refuted.
